@@ -78,7 +78,7 @@ def _m4_anomaly(log):
 class Arom(object):
     def __init__(self, ctx):
         self.ctx = ctx
-        self.sf = env.load_selfies()
+        self.sf = env.varied(env.load_selfies(), ctx)
         self.exotic_env = collections.defaultdict(set)
 
     def group(self, m, kind_of, arom_edges, cls, nspell, src):
@@ -308,7 +308,7 @@ def direct_matching(ctx, sf):
 
 
 def run(ctx):
-    sf = env.load_selfies()
+    sf = env.varied(env.load_selfies(), ctx)
     hooks.attach_m1()
     hooks.attach_m1_encoder()
     hooks.attach_m4()
